@@ -31,6 +31,17 @@ def generate(rng, quick):
     for i, text in enumerate(fixed):
         for o in OPTS:
             cases.append({"stream": "rules", "input": {"kind": "rules", "text": text, "opts": o}})
+    # a URL followed by EVERY kind of blank and then by text that needs conversion: the patterns' \S is Unicode white space
+    # (seeding round 11: re.ASCII made a no-break space part of the URL, the `&` behind it went raw into \url{})
+    from props import charclasses as CC
+    n = 0
+    for url in ["http://a.org/x", "https://x.y.de", "www.ex.com", "see http://a.b"]:
+        for ws in CC.all_whitespace() + CC.INVISIBLE_NOT_SPACE[:4]:
+            for tail in ["R&D", "50%", "a_b", "x", "www.a.b", "$x$"]:
+                n += 1
+                if quick and n % 2:
+                    continue
+                cases.append({"stream": "rules", "input": {"kind": "rules", "text": url + ws + tail, "opts": OPTS[n % len(OPTS)]}})
     for i in range(1500 if quick else 30000):
         text = "".join(rng.choice(TOKENS) for _ in range(rng.randint(3, 9)))
         cases.append({"stream": "rules", "input": {"kind": "rules", "text": text, "opts": OPTS[i % len(OPTS)]}})
